@@ -19,7 +19,10 @@ Record dcase := DC {
   dc_anc : list (list id);             (* node.ancestors of every object after the history         *)
   dc_off_raw : list dobs;              (* C20 only: the same history with BIGTREE_CONF_ASSERTIONS="" *)
   dc_bat_on : list (list nat);         (* C20 only: per object, a digest of what a battery of read-only   *)
-  dc_bat_off : list (list nat)         (* library calls returned on the final DAG, checks on / checks off *)
+  dc_bat_off : list (list nat);        (* library calls returned on the final DAG, checks on / checks off *)
+  dc_q : list (list (id * list id));   (* after each op: node.ancestors of a few objects (checks on)      *)
+  dc_dig_on : list (list nat);         (* C20 only: after each op, a digest of the derived queries of a   *)
+  dc_dig_off : list (list nat)         (* few objects and of the caller's argument lists, on / off        *)
 }.
 
 Definition apply_delta (prev : dlinks) (n : nat) (delta : list (id * (list id * list id))) : dlinks :=
@@ -95,10 +98,20 @@ Definition agree_anc (s : dag) (anc : list (list id)) : bool :=
 Definition anc_prop (anc : list (list id)) : bool :=
   forallb (fun x => negb (memb x (nth x anc []))) (dids (length anc)).
 
+(* node.ancestors of the sampled objects after each op: same set as the model's `ancestors` *)
+Fixpoint agree_queries (cfg : dconfig) (s : dag) (ops : list dop) (qs : list (list (id * list id))) : bool :=
+  match ops, qs with
+  | o :: ops', q :: qs' =>
+      let s' := fst (dstep cfg s o) in
+      forallb (fun e => seteq_b (dag_ancestors s' (fst e)) (snd e)) q && agree_queries cfg s' ops' qs'
+  | _, _ => true
+  end.
+
 Definition dcheck_with (c : dcase) (P : dag -> dop -> dag -> bool -> bool) : nat :=
   let cfg := dcfg (dc_assert c) in
   if unmodelled_dtrace cfg (dinit_of c) (dc_ops c) then F_SKIP else
   flag (negb (agree_dtrace cfg (dinit_of c) (dc_ops c) (dc_obs c)
+              && agree_queries cfg (dinit_of c) (dc_ops c) (dc_q c)
               && agree_anc (drun cfg (dinit_of c) (dc_ops c)) (dc_anc c))) F_DISAGREE
   + flag (negb (impl_dtrace_all P (dinit_of c) (dc_ops c) (dc_obs c)
                 && anc_prop (dc_anc c))) F_PROPFAIL.
@@ -122,14 +135,34 @@ Definition check_refused (s : dag) (o : dop) : bool :=
   | Err _ => true
   end.
 
-Fixpoint c20_same (s : dag) (ops : list dop) (on off : list (dlinks * nat)) : bool :=
+(* an operation accepted with the checks on belongs to a "valid" history whatever the model thinks of
+   it: it has to be accepted with the checks off too.  A refused one ends the comparison only when
+   it is the checks that refuse it. *)
+Fixpoint c20_same (s : dag) (ops : list dop) (on off : list (dlinks * nat)) (don doff : list (list nat)) : bool :=
   match ops, on, off with
   | [], [], [] => true
   | o :: ops', (l1, c1) :: on', (l2, c2) :: off' =>
-      if check_refused s o then true else
+      if negb (accepted c1) && check_refused s o then true else
       Bool.eqb (accepted c1) (accepted c2) && dlinks_eqb l1 l2
-      && c20_same (fst (dstep (dcfg true) s o)) ops' on' off'
+      && list_eqb Nat.eqb (hd [] don) (hd [] doff)
+      && c20_same (fst (dstep (dcfg true) s o)) ops' on' off' (tl don) (tl doff)
   | _, _, _ => false
+  end.
+
+(* the model with the checks off against the child interpreter: up to the first operation outside
+   the modelled domain (an argument the checks would have refused) *)
+Fixpoint agree_dtrace_prefix (cfg : dconfig) (s : dag) (ops : list dop) (obs : list (dlinks * nat)) : bool :=
+  match ops, obs with
+  | [], [] => true
+  | o :: ops', (l, code) :: obs' =>
+      let r := dstep cfg s o in
+      match snd r with
+      | Err Unmodelled => true
+      | _ => Bool.eqb (is_ok (snd r)) (accepted code)
+             && same_dlinks (fst r) (dstate_of (dname (fst r)) l)
+             && agree_dtrace_prefix cfg (fst r) ops' obs'
+      end
+  | _, _ => false
   end.
 
 (* the read-only battery (ancestors, descendants, siblings, is_root/is_leaf, attributes, go_to incl.
@@ -137,14 +170,26 @@ Fixpoint c20_same (s : dag) (ops : list dop) (on off : list (dlinks * nat)) : bo
    two interpreters whenever the two final DAGs are the same *)
 Definition final_links (l : list (dlinks * nat)) : dlinks :=
   match rev l with (x, _) :: _ => x | [] => [] end.
+(* some operation of the history is refused by the checks: from there on the two interpreters may
+   legitimately differ (e.g. user hooks only run with the checks off) *)
+Fixpoint any_check_refused (s : dag) (ops : list dop) (on : list (dlinks * nat)) : bool :=
+  match ops, on with
+  | o :: ops', (_, c1) :: on' =>
+      (negb (accepted c1) && check_refused s o) || any_check_refused (fst (dstep (dcfg true) s o)) ops' on'
+  | _, _ => false
+  end.
+
 Definition c20_battery (c : dcase) : bool :=
+  any_check_refused (dinit_of c) (dc_ops c) (dc_obs c) ||
   negb (dlinks_eqb (final_links (dc_obs c)) (final_links (dc_off c))
         && Nat.eqb (length (dc_obs c)) (length (dc_off c)))
   || list_eqb (list_eqb Nat.eqb) (dc_bat_on c) (dc_bat_off c).
 
 Definition check_C20_dag (c : dcase) : nat :=
-  if unmodelled_dtrace (dcfg true) (dinit_of c) (dc_ops c)
-     || unmodelled_dtrace (dcfg false) (dinit_of c) (dc_ops c) then F_SKIP else
+  if unmodelled_dtrace (dcfg true) (dinit_of c) (dc_ops c) then F_SKIP else
   flag (negb (agree_dtrace (dcfg true) (dinit_of c) (dc_ops c) (dc_obs c)
-              && agree_dtrace (dcfg false) (dinit_of c) (dc_ops c) (dc_off c))) F_DISAGREE
-  + flag (negb (c20_same (dinit_of c) (dc_ops c) (dc_obs c) (dc_off c) && c20_battery c)) F_PROPFAIL.
+              && agree_queries (dcfg true) (dinit_of c) (dc_ops c) (dc_q c)
+              && Nat.eqb (length (dc_off c)) (length (dc_ops c))
+              && agree_dtrace_prefix (dcfg false) (dinit_of c) (dc_ops c) (dc_off c))) F_DISAGREE
+  + flag (negb (c20_same (dinit_of c) (dc_ops c) (dc_obs c) (dc_off c) (dc_dig_on c) (dc_dig_off c)
+                && c20_battery c)) F_PROPFAIL.
